@@ -303,6 +303,7 @@ def run_case(case):
         geo[bi.composable_block_ids] = (j, tuple(v.shape), tuple(v.stride()), v.storage_offset() - bi.param.storage_offset())
     full = 0
     known_all = []
+    ledger_excerpt = None
     for il in range(case["interleavings"]):
         world = ranksim.World(S["W"], interleave_seed=hash((tuple(map(str, case["seed"])), il)) & 0xFFFFFF)
         from ..common import KernelObserver
